@@ -77,6 +77,7 @@ def main():
         print(f"unknown property {pid}")
         return 2
     P = props.PROPS[pid]
+    props.set_current(pid)
     t0 = time.time()
     wd = core.workdir(f"{pid}-{os.getpid()}")
     try:
